@@ -29,7 +29,7 @@ func c13(c *eng.Ctx, r *eng.Report) {
 		"R13.4 dealer and group key agree on the constant coefficient: the public key a dealer publishes is that of secretSeed.Deri(0), coefficient i is secretSeed.Deri(i), ShareSeckey treats msec[0] as the constant term, the member key is AggregateSeckeys over every received share and the group key AggregatePubkeys over every received dealer key, aggregated only once all member pieces arrived, and the member's published share key is GeneratePubkey of that aggregated secret; " +
 		"R13.5 recovery and aggregation do not write through their inputs: every in-place curve/signature operation in recoverSignature, RecoverGroupSignature, AggregatePubkeys and GroupSignGenerator works on a value allocated in that function and never initialised by a shallow struct copy of an input (Signature and Pubkey wrap a pointer). " +
 		"R13.6 a dealer deals one polynomial per group: the seed, the coefficients, the shares and the published dealer key are computed from the miner's long-term secret and the group hash with no randomness, clock or environment source in their cone, so a dealer whose context is rebuilt (restart, re-delivered init) hands the remaining members pieces of the same polynomial the others already hold. " +
-		"R13.7 recovery keeps nothing between calls: no cache, package-variable store or shared object in the cone of recoverSignature/RecoverGroupSignature (a memo keyed by the signer *set* and holding per-*position* coefficients is right for the first arrival order only). " +
+		"R13.7 recovery keeps nothing between calls and runs sequentially: no cache, package-variable store, shared object or goroutine in the cone of recoverSignature/RecoverGroupSignature (a memo keyed by the signer *set* and holding per-*position* coefficients is right for the first arrival order only). " +
 		"R13.8 a member signs with the key the DKG gave it, also after a restart: the record written for the signing key is exactly SignSecKey.Serialize() (a variable-length big-endian integer) and what is read back is handed to Deserialize whole — no re-slicing at a fixed width, nothing appended to the same record; " +
 		"R13.9 a share piece reaches only the member it was evaluated for: the two senders of share pieces (the initial deal and the answer to a re-request) use the unicast SendToStranger with the receiver's id — a ResponseSharePiece carries no receiver field, so a group-wide spread lets another member that still misses this dealer's piece adopt f(requester). " +
 		"R13.10 all members sign the same curve point H(m): the big-endian encodings between message and point (HashToPoint's coordinates, id and scalar encoders) are right-aligned, each in a buffer of its own (C14's R14.5 under this property's id — a coordinate with a leading zero byte must not inherit bytes of the previous one); " +
@@ -1075,6 +1075,13 @@ func c13RecoveryPure(c *eng.Ctx, r *eng.Report) {
 		nfn++
 		for _, h := range eng.ScanNondeterminism(fn) {
 			switch h.Kind {
+			case "go":
+				// a goroutine per share: the scratch values of the sequential loop become shared
+				if strings.Contains(eng.FuncName(fn), "recoverSignature") || strings.Contains(eng.FuncName(fn), "RecoverGroupSignature") {
+					if bad == "" {
+						bad = "a goroutine is started in " + eng.FuncName(fn) + " (" + c.Pos(h.Pos) + "): the combination was written as a sequential loop whose scratch point is declared outside it, so concurrent terms overwrite each other"
+					}
+				}
 			case "cache", "global-store", "shared-object", "syncmap-range":
 				if h.Kind == "shared-object" && (strings.Contains(h.Detail, "curveOrder") || strings.Contains(h.Detail, "math/big.Int") && strings.Contains(h.Detail, "Cmp")) {
 					continue
